@@ -216,6 +216,19 @@ def check_theorems(pid):
         a = assum[i] if i < len(assum) else ("(not reached)" if rc != 0 else "(no Print Assumptions)")
         res.append({"name": n, "ok": rc == 0, "assumptions": a.split("\n")[0] if a.startswith("Closed") else a})
     failing = None
+    if rc == 0:
+        # every property theorem must be closed (no axiom, not even a standard-library one, is relied on)
+        for r in res:
+            if not r["assumptions"].startswith("Closed under the global context"):
+                r["ok"] = False
+                failing = failing or r["name"]
+                log += "\n[audit] %s depends on: %s" % (r["name"], r["assumptions"][:400])
+        bad = audit_sources()
+        if bad:
+            for r in res:
+                r["ok"] = False
+            failing = failing or names[0]
+            log += "\n[audit] forbidden constructs in the development: " + "; ".join(bad[:10])
     if rc != 0:
         m = re.search(r'File "([^"]+)", line (\d+)', log)
         if m:
@@ -227,6 +240,64 @@ def check_theorems(pid):
         for r in res:
             r["ok"] = failing is not None and names.index(r["name"]) < names.index(failing) if failing in names else False
     return res, log, failing
+
+
+FORBIDDEN = re.compile(r"\b(Admitted|admit|Axiom|Axioms|Parameter|Parameters|Conjecture|Conjectures|Abort All|native_compute|"
+                       r"bypass_check|Admit Obligations)\b|Unset Guard Checking|Unset Positivity Checking|Unset Universe Checking|"
+                       r"-type-in-type|-impredicative-set")
+
+
+def audit_sources():
+    """grep of the whole development (comments stripped): no axiom-declaring command, no switched-off kernel check,
+    and Variable/Hypothesis/Context only inside a Section."""
+    bad = []
+    for root, _, files in os.walk(COQ):
+        for f in sorted(files):
+            if not f.endswith(".v"):
+                continue
+            path = os.path.join(root, f)
+            text = open(path).read()
+            # strip (nested) comments
+            out, depth, i = [], 0, 0
+            while i < len(text):
+                if text.startswith("(*", i):
+                    depth += 1; i += 2
+                elif text.startswith("*)", i) and depth:
+                    depth -= 1; i += 2
+                else:
+                    if not depth:
+                        out.append(text[i])
+                    elif text[i] == "\n":
+                        out.append("\n")
+                    i += 1
+            code = "".join(out)
+            nest = 0
+            for ln, line in enumerate(code.split("\n"), 1):
+                st = line.strip()
+                if re.match(r"(Section|Module)\b", st) and not re.match(r"Module\s+\w+\s*:=", st):
+                    nest += 1
+                elif re.match(r"End\b", st):
+                    nest = max(0, nest - 1)
+                m = FORBIDDEN.search(line)
+                if m:
+                    bad.append("%s:%d %s" % (os.path.relpath(path, COQ), ln, m.group(0)))
+                if nest == 0 and re.match(r"(Variable|Variables|Hypothesis|Hypotheses|Context)\b", st):
+                    bad.append("%s:%d %s outside a Section" % (os.path.relpath(path, COQ), ln, st.split()[0]))
+    for f in ("_CoqProject",):
+        t = open(os.path.join(COQ, f)).read()
+        if "-type-in-type" in t or "impredicative-set" in t or "-vos" in t:
+            bad.append("_CoqProject: forbidden flag")
+    return bad
+
+
+def coqchk(pid):
+    """thorough tier: independent re-check of the property's compiled theorems and everything they depend on"""
+    rc, log = sh(["timeout", "3000", "coqchk", "-silent", "-o"] + COQ_Q + ["Verif." + pid], cwd=COQ, timeout=3100)
+    m = re.search(r"\* Axioms:\s*(.*?)\n\s*\n", log, re.S)
+    axioms = m.group(1).strip() if m else "(no summary)"
+    clean = rc == 0 and axioms == "<none>" and all(("%s: <none>" % k) in log for k in
+                                                    ("relying on type-in-type", "unsafe (co)fixpoints", "positivity is assumed"))
+    return clean, axioms, log[-1500:]
 
 
 # ---------------------------------------------------------------- known findings
